@@ -31,7 +31,7 @@ func (c03) NumCases(tier string, _ int64) int {
 	if tier == "thorough" {
 		return 30000
 	}
-	return 1500
+	return 4000
 }
 func (c03) Exhaustive(string) bool { return false }
 func (c03) Floors(string) []runner.Floor {
